@@ -652,6 +652,8 @@ void vrt_yield (void) {
 }
 
 int vrt_sched_yield (void) { vrt_yield (); return 0; }
+/* scenario-directed clock: move the virtual clock forward to t (never backwards) and fire the timeouts that are due */
+void vrt_clock_forward_to (int64_t t) { if (t > now_ns) { now_ns = t; wake_timeouts (); vrt_count ("clock_jump_scenario"); } }
 
 /* ---------- clock ---------- */
 int vrt_clock_gettime (clockid_t c, struct timespec *ts) {
